@@ -280,6 +280,18 @@ def replay_terminal_info(obl):
                 bad.append(dict(after=tag, terminal=trm.name, sites_reported=np.sort(a[trm.name].site_indices).tolist()[:12],
                                 boundary_sites_inside_the_terminal=np.sort(want).tolist()[:12]))
                 return
+        # independent terminal length: sum of the site-to-site distances (in length units) of the boundary edges whose centre is inside
+        em = d.mesh.edge_mesh
+        P = d.points
+        for trm in d.terminals:
+            be = em.boundary_edge_indices
+            cen = 0.5 * (P[em.edges[be, 0]] + P[em.edges[be, 1]])
+            ins = trm.contains_points(cen)
+            want_len = float(np.linalg.norm(P[em.edges[be, 1]] - P[em.edges[be, 0]], axis=1)[ins].sum())
+            if not np.isclose(float(a[trm.name].length), want_len, rtol=1e-9, atol=1e-12):
+                bad.append(dict(after=tag, terminal=trm.name, length_reported=float(a[trm.name].length), length_of_the_covered_boundary_edges_in_length_units=want_len,
+                                coherence_length=float(d.layer.coherence_length)))
+                return
         for nme in a:
             if not (np.array_equal(a[nme].site_indices, b[nme].site_indices) and np.array_equal(a[nme].edge_indices, b[nme].edge_indices)
                     and np.isclose(a[nme].length, b[nme].length)):
